@@ -56,16 +56,21 @@ Section PythonLayer.
     end.
   Definition keys (h : hdict) : list (list byte) := map fst h.
 
-  (* the keys _make_header deletes: each of the five names and its upper-case form *)
-  Definition deleted_keys : list (list byte) :=
-    [B "_size"; B "_SIZE"; B "_nrows"; B "_NROWS"; B "_delim"; B "_DELIM";
-     B "_shape"; B "_SHAPE"; B "_has_fields"; B "_HAS_FIELDS"].
+  (* the names _make_header removes, in ANY spelling (`key.lower() in reserved`; /repo 04e3f20; before that fix
+     only the all-lower and all-upper spellings were removed: Witness.make_header_v0) *)
+  Definition reserved_lower : list (list byte) :=
+    [B "_size"; B "_nrows"; B "_delim"; B "_shape"; B "_has_fields"].
+  Definition deleted_keys : list (list byte) := reserved_lower.
+  Definition is_stripped (k : list byte) : bool := existsb (bytes_eqb (lower k)) reserved_lower.
+  Fixpoint strip_reserved (h : hdict) : hdict :=
+    match h with
+    | [] => []
+    | (k, v) :: t => if is_stripped k then strip_reserved t else (k, v) :: strip_reserved t
+    end.
 
   (* SFile._make_header for a binary file (delim is None) *)
   Definition make_header (hdr : hdict) (dt : dtype) : hdict :=
-    dset (B "_VERSION") (v_str sfile_version)
-      (dset (B "_DTYPE") (v_descr dt)
-         (fold_left (fun h k => ddel k h) deleted_keys hdr)).
+    dset (B "_VERSION") (v_str sfile_version) (dset (B "_DTYPE") (v_descr dt) (strip_reserved hdr)).
 
   (* SFile(mode='w').write(data, header=hdr); also sfile.write and io.write for *.rec *)
   Definition sfile_write (hdr : hdict) (dt : dtype) (rows : list (list byte)) : file :=
